@@ -627,6 +627,8 @@ class Guard:
     __slots__ = ("test", "polarity", "origin")
 
     def __init__(self, test: ast.AST, polarity: bool, origin: str):
+        while isinstance(test, ast.UnaryOp) and isinstance(test.op, ast.Not):
+            test, polarity = test.operand, not polarity     # `not c` held <=> c did not
         self.test = test
         self.polarity = polarity   # True: test holds, False: not test holds
         self.origin = origin       # 'if', 'else', 'early-exit', 'ifexp', 'comp', 'boolop', 'while'
